@@ -256,7 +256,9 @@ func c18NilPointerHook(c *mon.Ctx) {
 		{`P == "was-nil"`, "T"}, {`P != "was-nil"`, "F"}, {`S == "was-nil"`, "T"}, {`T == "was-nil"`, "T"}, {`P is empty`, "F"}, {`P is not empty`, "T"}, {`P matches "^was"`, "T"}, {`"was" in P`, "T"},
 		{`L.0 == "was-nil"`, "T"}, {`M.k == "was-nil"`, "T"}, {`any L as v { v == "was-nil" }`, "T"}, {`any NM as _, v { v == "was-nil" }`, "T"}, {`all NM as k, v { v == "was-nil" and k != zz }`, "T"}, {`all NL as i, v { v == "was-nil" }`, "T"}, {`any NL as v { v != "was-nil" }`, "F"}, {`OK == 7`, "T"}, {`L.1.N == 1`, "T"},
 	}
-	for _, wrap := range []func() interface{}{func() interface{} { return d }, func() interface{} { return &d }, func() interface{} { return map[string]interface{}{"P": d.P, "S": d.S, "T": d.T, "L": d.L, "M": d.M, "NL": d.NL, "NM": d.NM, "OK": d.OK} }} {
+	for _, wrap := range []func() interface{}{func() interface{} { return d }, func() interface{} { return &d }, func() interface{} {
+		return map[string]interface{}{"P": d.P, "S": d.S, "T": d.T, "L": d.L, "M": d.M, "NL": d.NL, "NM": d.NM, "OK": d.OK}
+	}} {
 		for _, cs := range cases {
 			ev, err, pan, _ := createEval(cs.expr, bexpr.WithHookFn(hook))
 			c.Evals(1)
